@@ -144,6 +144,7 @@ EditsOf(kind) ==
     [] kind = "AttachHeights" -> {[k |-> "AttachHeights", s |-> s] : s \in 1..2}
     [] kind = "MakeFree" -> {[k |-> "MakeFree", s |-> s] : s \in 1..6}
     [] kind = "Isolate" -> {[k |-> "Isolate", s |-> s] : s \in 1..2}
+    [] kind = "Blunder" -> {[k |-> "Blunder", obs |-> i, pct |-> pc, tol |-> tl] : i \in 1..8, pc \in {99, 101, 300}, tl \in {1, 10, 1000}}
     [] kind = "ExcludeVsDelete" -> {[k |-> "ExcludeVsDelete", s |-> s] : s \in 1..3}
     [] OTHER -> {}
 
@@ -183,6 +184,8 @@ Law(e) ==
     [] e.k = "AddConsistentObs" -> [coords |-> "truth", obs |-> "superset", stats |-> "any", cov |-> "any"]
     [] e.k = "MakeFree" -> [coords |-> "any", obs |-> "any", stats |-> "any", cov |-> "any", adjustable |-> Adjustable(e)]
     [] e.k = "Isolate" -> [coords |-> "same", obs |-> "superset", stats |-> "any", cov |-> "any", removed |-> "X"]
+    [] e.k = "Blunder" -> [coords |-> "any", obs |-> "any", stats |-> "any", cov |-> "any",
+                           excluded |-> (e.pct > 100), equals |-> (IF e.pct > 100 THEN "Delete" ELSE "Keep")]
     [] e.k = "AttachHeights" -> [coords |-> "same", obs |-> "any", stats |-> "any", cov |-> "any"]
     [] e.k = "ReplaceCovByStdev" -> [coords |-> "same", obs |-> "same", stats |-> "same", cov |-> "same"]
     [] OTHER -> [coords |-> "same", obs |-> "same", stats |-> "same", cov |-> "same"]
@@ -190,6 +193,8 @@ Law(e) ==
 (* applicability of an edit to a network *)
 Applicable(e) ==
   /\ (e.k = "MakeFree" => net.t \in {"tri2d", "trav2d", "polar3d", "lev1d"} /\ (e.s \in {5, 6} => Template(net.t).dim = 3))
+  /\ (e.k = "Blunder" => net.noise = 0 /\ net.t \in {"tri2d", "dist2d", "polar3d", "fstat2d", "fstat3d", "lev1d"}
+                          /\ e.obs <= Len(Template(net.t).mand))
   /\ (e.k = "Isolate" => net.t \in {"tri2d", "dist2d", "polar3d"})
   /\ (e.k = "ChangeDatum" => net.t \in {"free2d"})
   /\ (e.k = "AddConsistentObs" => net.noise = 0)
